@@ -84,8 +84,10 @@ def register(w):
         params={"selector": "str"},
         selfclass=PROTO_CLASSES + ["BaseGopherProtocol"],
         modifies=[], raises={}, returns="str",
-        ensures=["result == S.norm(selector)"],
-        props=["C02", "C05", "C06"],
+        loops={0: dict(invariant=["selector.rstrip('/') == old(selector).rstrip('/')", "old(selector).startswith(selector)"], decreases="len(selector)", havoc=["selector"])},
+        ensures=["result == S.norm(selector)", "result.startswith('/')", "result == '/' or not result.endswith('/')"],
+        props=["C02", "C05", "C06", "C10", "C03"],
+        note="every trailing slash is dropped: '<dir>//' is '<dir>' (listed under the spelling '<dir>/' its children would be refused by the filter and the empty listing cached)",
     )
     w.contract(
         BASE + "check_tls",
